@@ -591,6 +591,118 @@ def gen_stmt_body(r, allow_nh=True, kinds_bias=None, nconds=None):
     return "(%s) %s (%s)" % (" ".join(conds), disp, " ".join(acts))
 
 
+# ---------------------------------------------------------------- pinned cases: one element, one condition, one probe on the boundary
+def ext_text(h):
+    """`ext_community_to_string` for the generated values (None: no text form)"""
+    b = bytes.fromhex(h)
+    t, st = b[0], b[1]
+    two = lambda x: int.from_bytes(x, "big")
+    pre = "rt" if st == 2 else "soo"
+    if t == 0 and st in (2, 3):
+        return "%s:%d:%d" % (pre, two(b[2:4]), two(b[4:8]))
+    if t == 2 and st in (2, 3):
+        return "%s:%d:%d" % (pre, two(b[2:6]), two(b[6:8]))
+    if t == 1 and st in (2, 3):
+        return "%s:%d.%d.%d.%d:%d" % (pre, b[2], b[3], b[4], b[5], two(b[6:8]))
+    if t == 3 and st == 12:
+        return "encap:%d" % two(b[6:8])
+    if t == 0x40 and st == 4:
+        import struct
+        f = struct.unpack(">f", b[4:8])[0]
+        return "lb:%d:%d" % (two(b[2:4]), int(f))
+    if t == 0x43 and st == 0 and b[7] <= 2:
+        return "validation:" + ["valid", "not-found", "invalid"][b[7]]
+    return None
+
+
+def pin_route(r, net, mask, attrs, peer=None):
+    _TARGETS.append((net, mask))
+    p = peer or r.pick(PROBE_PEERS)
+    return "(route (src (peer 65001 65002 %s %s)) (net %s %d) (attrs %s) (nh (some %s)) (onh none) (confed f) (laddr %s) (paddr %s) (rpki none))" % (
+        p, NEXTHOPS[0], net, mask, " ".join(attrs), NEXTHOPS[0], NEXTHOPS[1], p)
+
+
+def gen_pin_case(r):
+    """exactly one set member (or one plain condition) decides the statement, and the probe sits on / next to its boundary"""
+    del _TARGETS[:]
+    base = [attr(1, 64, None, 0)]
+    path1 = attr(2, 64, enc_path([(2, [65001])]))
+    kind = r.pick(["prefix", "prefix", "prefix", "aspath", "aspath", "neighbor", "comm", "ext", "ext", "large", "aslen", "ccount", "val"])
+    cond = None
+    if kind == "prefix":
+        net, mask = r.pick(ROUTE_NETS)
+        probe = pin_route(r, net, mask, base + [path1])
+        w = 128 if net.startswith("(6") else 32
+        rel = related_entries()
+        a, m, _ = r.pick(rel)                                        # covers the probe's address; may be longer than the probe
+        lo, hi = r.pick([(mask, mask), (mask + 1, w), (0, max(mask, 1) - 1), (mask, w), (0, mask), (0, w), (max(mask, 1) - 1, mask + 1)])
+        elems = ["(p %s %d %d %d)" % (a, m, min(lo, 255), min(hi, 255))]
+        if r.chance(1, 3):
+            # a second, nested entry that says the opposite
+            a2, m2, _ = r.pick(rel)
+            if (a2, m2) != (a, m):
+                elems.append("(p %s %d %d %d)" % ((a2, m2) + r.pick([(mask, mask), (mask + 1, min(w, 255)), (0, max(mask, 1) - 1)])))
+    elif kind == "aspath":
+        segs = r.pick([p for p in PATHS if any(a for _, a in p)])
+        flat = [x for _, a in segs for x in a]
+        probe = pin_route(r, *r.pick(ROUTE_NETS), base + [attr(2, 64, enc_path(segs))])
+        form = r.pick(["inc", "left", "orig", "only"])
+        subj = {"inc": r.pick(flat), "left": flat[0], "orig": flat[-1], "only": flat[0]}[form]
+        if r.chance(1, 2):
+            elems = ["(%s %d)" % (form, max(0, subj + r.pick([0, 0, 1, -1])))]
+        else:
+            lo, hi = r.pick([(subj, subj), (subj + 1, subj + 10), (max(subj, 10) - 10, max(subj, 1) - 1), (subj, subj + 5), (max(subj, 5) - 5, subj),
+                             (subj + 1, max(subj, 1) - 1)])
+            elems = ["(r%s %d %d)" % (form, min(lo, 4294967295), min(hi, 4294967295))]
+    elif kind == "neighbor":
+        na, nm = r.pick([x for x in NEIGHBOR_NETS if x[1] not in (0,)])
+        v6, val = _num(na)
+        size = 1 << ((128 if v6 else 32) - nm)
+        top = (1 << (128 if v6 else 32)) - 1
+        pv = r.pick([val, val + size - 1, min(val + size, top), max(val, 1) - 1])
+        probe = pin_route(r, *r.pick(ROUTE_NETS), base + [path1], peer=(A6 if v6 else A4)(pv))
+        elems = ["(n %s %d)" % (na, nm)]
+    elif kind == "comm":
+        c = r.pick(COMMS + list(WELL_KNOWN.values()))
+        probe = pin_route(r, *r.pick(ROUTE_NETS), base + [path1, attr(8, 192, be32(c))])
+        names = [n for n, v in WELL_KNOWN.items() if v == c]
+        d = c + r.pick([0, 0, 1, -1])
+        elems = [r.pick(names + [n.upper() for n in names]) if names and r.chance(1, 2) else r.pick([str(d), "%d:%d" % (d >> 16, d & 0xffff)])]
+    elif kind == "ext":
+        h = r.pick([e for e in EXTS if ext_text(e)])
+        other = r.pick([e for e in EXTS if ext_text(e)])
+        probe = pin_route(r, *r.pick(ROUTE_NETS), base + [path1, "(a 16 192 x%s)" % h])
+        elems = ["^" + ext_text(r.pick([h, h, other])) + "$"]
+    elif kind == "large":
+        a, b, c = r.pick(LARGES)
+        probe = pin_route(r, *r.pick(ROUTE_NETS), base + [path1, attr(32, 192, be32(a) + be32(b) + be32(c))])
+        elems = ["^%d:%d:%d$" % (a, b, max(0, c + r.pick([0, 0, 1, -1])))]
+    elif kind == "aslen":
+        segs = gen_path(r)
+        n = sum(1 if t == 1 else len(a) if t == 2 else 0 for t, a in segs)
+        probe = pin_route(r, *r.pick(ROUTE_NETS), base + [attr(2, 64, enc_path(segs))])
+        cond = "(aslen %s %d)" % (r.pick(["eq", "ge", "le"]), max(0, n + r.pick([0, 1, -1])))
+    elif kind == "ccount":
+        n = r.pick([0, 1, 2, 3, 63, 64])
+        probe = pin_route(r, *r.pick(ROUTE_NETS), base + [path1] + ([attr(8, 192, sum((be32(COMMS[i % len(COMMS)]) for i in range(n)), []))] if n else []))
+        cond = "(ccount %s %d)" % (r.pick(["eq", "ge", "le"]), max(0, n + r.pick([0, 1, -1])))
+    else:
+        code, name, flags = r.pick([(5, "lpeq", 64), (4, "medeq", 128)])
+        v = r.pick([0, 1, 100, 4294967295])
+        present = r.chance(3, 4)
+        probe = pin_route(r, *r.pick(ROUTE_NETS), base + [path1] + ([attr(code, flags, None, v)] if present else []))
+        cond = "(%s %d)" % (name, min(4294967295, max(0, v + r.pick([0, 0, 1, -1]))) if present else r.pick([0, 1]))
+    ops = []
+    if cond is None:
+        name = SET_NAMES[kind][0]
+        ops.append("(set-add %s %s (%s))" % (kind, name, " ".join(elems)))
+        cond = "(cset %s %s %s)" % (kind, name, r.pick(["any", "invert", "all"] if kind not in ("prefix", "neighbor") or r.chance(1, 4) else ["any", "invert"]))
+    disp = r.pick(["accept", "reject"])
+    ops += ["(stmt-add s1 (%s) %s ())" % (cond, disp), "(pol-add p1 (s1))",
+            "(asg-add %s ga %s (p1))" % (r.pick(["imp", "exp"]), "reject" if disp == "accept" else "accept")]
+    return "(case (probes %s %s) (ops %s))" % (probe, gen_route(r), " ".join(ops))
+
+
 # ---------------------------------------------------------------- case flavours
 def setup_ops(r, focus=None):
     ops = []
@@ -716,6 +828,8 @@ def free_set_ops(r):
 
 
 def gen_case(r, tier):
+    if r.chance(1, 5):
+        return gen_pin_case(r)
     fl = r.below(100)
     nprobe = r.pick([2, 3, 3, 4])
     del _TARGETS[:]
